@@ -617,6 +617,11 @@ class ExactlyK(_KInARow):
         sublistss = block.build_variable_lists(level, self.within_block)
 
         for sublists in sublistss:
+            if not sublists:
+                # The factor applies to no trial of this range, so the level
+                # cannot occur k > 0 times (and there is nothing to count).
+                backend_request.cnfs.append(And([1, -1]))
+                continue
             backend_request.ll_requests.append(LowLevelRequest("EQ", self.k, sublists))
 
     def __eq__(self, other):
